@@ -229,6 +229,20 @@ func oracle(c qcase.Case) (evid.Info, error) {
 		}
 		return info, nil
 	}
+	// The determinacy comes from the reference semantics. When the unoptimised SQL does not return what the
+	// reference does (a translation defect, C01's subject) its rows are not the rows the determinacy was computed
+	// for: a SKIP/LIMIT may then cut through rows the reference does not have, and ORDER BY may meet ties the
+	// reference does not have. Such a case is compared as a bag when nothing cuts, and skipped otherwise.
+	if qcase.Compare(ref, det, gotUn) != "" {
+		info.Classes = append(info.Classes, "unoptimised-differs-from-reference")
+		if det == qcase.CountOnly || hasSkipOrLimit(model) {
+			info.Skip = "window-over-rows-the-reference-does-not-have(C01)"
+			return info, nil
+		}
+		if det > qcase.Bag {
+			det = qcase.Bag
+		}
+	}
 	if msg := qcase.Compare(gotUn, det, gotOpt); msg != "" {
 		return info, fmt.Errorf("optimised and unoptimised SQL for %q return different rows on this graph (%s; 'reference' below = unoptimised)\n%s\noptimised (lowerings %v):   %s\nunoptimised: %s\nparams: %v",
 			c.Query, det, msg, info.Classes, opt.sql, unopt.sql, opt.params)
@@ -283,6 +297,18 @@ var allLowerings = []string{
 	optimize.LoweringLimitPushdown, optimize.LoweringExpansionSuffixPushdown, optimize.LoweringPredicatePlacement,
 	optimize.LoweringCountStoreFastPath, optimize.LoweringCollectIDMembership, optimize.LoweringAggregateTraversalCount,
 	optimize.LoweringExactRangeExpansion, optimize.LoweringPathRelationshipPredicate,
+}
+
+// hasSkipOrLimit reports whether any WITH or RETURN of the query carries SKIP or LIMIT.
+func hasSkipOrLimit(q *cypher.RegularQuery) bool {
+	found := false
+	qcase.Visit(q, func(n any) bool {
+		if p, ok := n.(*cypher.Projection); ok && p != nil && (p.Skip != nil || p.Limit != nil) {
+			found = true
+		}
+		return !found
+	})
+	return found
 }
 
 func TestC02Generated(t *testing.T) {
